@@ -61,7 +61,7 @@ RowsDoc(lens) == JArr([i \in DOMAIN lens |-> Row(lens[i], 100 * i)])
 RowLens == {<<3, 9>>, <<9, 3>>, <<2, 8, 5>>, <<0, 6>>, <<6, 0, 7>>, <<1, 2, 3, 4>>}
 CtxPrefixes == {<<cAT, cLBRACKET, cSTAR, cRBRACKET>>, <<cAT, cLBRACKET, cCOLON, cRBRACKET>>, <<cAT, cLBRACKET, cQMARK, cAT, cRBRACKET>>,
              <<cAT, cLBRACKET, cCOLON, cCOLON, 45, 49, cRBRACKET>>}
-CtxEnds == {None, Some(0), Some(1), Some(5), Some(-2), Some(6), Some(7)}
+CtxEnds == {None, Some(0), Some(1), Some(5), Some(-2), Some(6), Some(7), Some(-9), Some(-20), Some(2147483647)}
 ContextCases(zzdummy) ==
   LET cells == SetToSeq({<<p, a, b, c, ls>> : p \in CtxPrefixes, a \in CtxEnds, b \in CtxEnds, c \in {1, 2, -1}, ls \in RowLens})
   IN [x \in DOMAIN cells |-> [e |-> "eval", doc |-> RowsDoc(cells[x][5]),
@@ -73,7 +73,8 @@ NullConts == << <<>>, <<cDOT>> \o <<116, 121, 112, 101, cLPAREN, cAT, cRPAREN>>,
                 <<cDOT>> \o <<116, 111, 95, 97, 114, 114, 97, 121, cLPAREN, cAT, cRPAREN>>, <<cPIPE>> \o <<108, 101, 110, 103, 116, 104, cLPAREN, cAT, cRPAREN>>,
                 <<cLBRACKET, cQMARK, cBANG, cAT, cRBRACKET>>, <<cDOT>> \o <<110, 111, 116, 95, 110, 117, 108, 108, cLPAREN, cAT, cCOMMA, 96, 55, 96, cRPAREN>> >>
 NullContextCases(zzdummy) ==
-  LET cells == SetToSeq({<<a, b, c, k>> : a \in {None, Some(0), Some(1), Some(-2)}, b \in {None, Some(2), Some(5), Some(-1)}, c \in {1, 2, -1}, k \in DOMAIN NullConts})
+  LET cells == SetToSeq({<<a, b, c, k>> : a \in {None, Some(0), Some(1), Some(-2), Some(-9), Some(-6), Some(-7), Some(20)},
+                                           b \in {None, Some(2), Some(5), Some(-1), Some(-9), Some(20)}, c \in {1, 2, -1}, k \in DOMAIN NullConts})
   IN [x \in DOMAIN cells |-> [e |-> "eval", doc |-> NullRow,
                                text |-> <<cAT, cLBRACKET>> \o OptText(cells[x][1]) \o <<cCOLON>> \o OptText(cells[x][2]) \o <<cCOLON>> \o IntText(cells[x][3])
                                         \o <<cRBRACKET>> \o NullConts[cells[x][4]]]]
